@@ -151,7 +151,8 @@ def val_json(v):
     if isinstance(v, int):
         return {'int': str(v)}
     if isinstance(v, float):
-        return {'flt': cps(repr(v))}
+        import struct
+        return {'flt': cps(repr(v)), 'bits': str(struct.unpack('>Q', struct.pack('>d', v))[0])}
     raise TypeError(type(v))
 
 
@@ -470,7 +471,7 @@ def lit(c):
 LEAVES = [(['ctx', {'text': cps('$a')}], '$a'), (['const', 'number', {'int': '1'}], '1'),
           (['const', 'quoted', {'text': cps('s')}], "'s'"), (['kw', {'text': cps('b')}], 'b'),
           (['ctx', {'text': cps('$')}], '$'), (['const', 'true', None], 'true'),
-          (['const', 'number', {'flt': cps('2.5')}], '2.5'), (['const', 'null', None], 'null'),
+          (['const', 'number', val_json(2.5)], '2.5'), (['const', 'null', None], 'null'),
           (['kw', {'text': cps('c')}], 'c')]
 LEAF_TEXT = {json.dumps(t): x for t, x in LEAVES}
 
